@@ -211,7 +211,8 @@ impl Item {
                         let next = Item::contains(items.get(i).unwrap(), pattern, depth);
                         match next {
                             Ok(pattern_idx) => return Ok(pattern_idx),
-                            Err(()) => (),
+                            // skip the points inside the sub-item that was searched in vain
+                            Err(()) => depth += Item::size(items.get(i).unwrap()) - 1,
                         }
                     }
                 }
